@@ -2,8 +2,8 @@
 #include "common.hpp"
 using namespace Theo;
 static int cmd_compile(int argc, char** argv) {
-  bool want_prog = false, want_msg = false;
-  for (int i = 1; i < argc; i++) { std::string a = argv[i]; if (a == "--prog") want_prog = true; if (a == "--msg") want_msg = true; }
+  bool want_prog = false, want_msg = false, want_digest = false;
+  for (int i = 1; i < argc; i++) { std::string a = argv[i]; if (a == "--prog") want_prog = true; if (a == "--msg") want_msg = true; if (a == "--digest") want_digest = true; }
   std::string line; long idx = 0;
   while (std::getline(std::cin, line)) {
     if (line.empty()) continue;
@@ -32,6 +32,7 @@ static int cmd_compile(int argc, char** argv) {
     out["files"] = fl;
     out["main"] = mainf;
     if (want_prog && cr.generated_correctly) out["prog"] = th::dump_program(cr.code);
+    if (want_digest) out["digest"] = th::digest_of(cr);
     th::emit(out);
   }
   return 0;
